@@ -16,7 +16,8 @@ LEVEL = 'exploration'
 RULE = ('cases = pipelines of 1-6 steps from the non-buffering set (field edits, set_type/validate, filter_rows, unpivot, '
         'concatenate, printer, dump_to_path/zip, stream, first-run checkpoint, user row/rows functions, update_*) x 1-2 '
         'counting sources given as generator / (descriptor, iterators) tuple load / sources() / load() of a file through a row-counting tabulator parser (x infer_strategy) x a column that is null for the first 0/50/150/all rows x stream lengths N1 < N2 '
-        '(quick 300 & 1500; thorough up to 100000); non-trivial: N2 >= 1000 and >= 2 steps; distinct by (case hash)')
+        '(quick 300 & 1500; thorough up to 100000); plus "early stop" pipelines (limit_rows / a rows function returning after K '
+        'rows over a 5000-row source: the source is read at most K + constant rows); non-trivial: N2 >= 1000 and >= 2 steps; distinct by (case hash)')
 ASSUMPTIONS = [
     'look-ahead is measured at row-iterator level (rows pulled from the Python source), not bytes read by a file parser',
     'the constant allows the inference sample (100 rows for iterables, 1000 rows for load() of a file) plus 64 rows of fixed batching',
@@ -54,8 +55,39 @@ def cases_(draw, tier):
             'infer': draw(st.sampled_from([None, 'full', 'pytypes']))}
 
 
+NON_DROPPING = ['add_field', 'add_computed', 'select_fields', 'rename_fields', 'find_replace', 'set_type', 'validate', 'printer',
+                'dump_to_path', 'dump_to_zip', 'stream_file', 'update_resource', 'update_schema', 'update_package', 'update_stats']
+
+
+@st.composite
+def early_stop_case(draw, tier):
+    """A pipeline that stops asking for rows after K of them (limit_rows, or a rows function that returns early):
+    the source must not be read (much) beyond the K-th row."""
+    pkg = [{'name': 'res_1', 'fields': copy.deepcopy(FIELDS), 'rows': []}]
+    gp.PROTECTED.add('_p')
+    try:
+        prog = draw(gp.programs(0, 4, kinds=NON_DROPPING, pkg=pkg, favour_mutators=False))
+    finally:
+        gp.PROTECTED.discard('_p')
+    steps = prog['steps']
+    k = draw(st.sampled_from([1, 10, 25, 150]))
+    how = draw(st.sampled_from(['limit_rows', 'head']))
+    if how == 'head':
+        steps.insert(draw(st.integers(0, len(steps))), {'k': 'rows_fn', 'fn': 'head', 'n': k, 'form': 'def'})
+    return {'early_stop': how, 'k': k, 'n_src': 1, 'steps': steps,
+            'source_form': 'load_tuple' if how == 'limit_rows' else draw(st.sampled_from(['generator', 'load_tuple'])),
+            'sizes': [5000 if tier == 'quick' else 50000]}
+
+
+@st.composite
+def _mix(draw, tier):
+    if gen.rare(draw, 150):
+        return draw(early_stop_case(tier))
+    return draw(cases_(tier))
+
+
 def cases(tier):
-    return cases_(tier)
+    return _mix(tier)
 
 
 def run(case, n, ctx):
@@ -140,13 +172,37 @@ def run(case, n, ctx):
                                        custom_parsers={'counting': make()}, **kw))
     else:
         desc = gen.descriptor_of([{'name': 'res_%d' % (s + 1), 'fields': FIELDS, 'rows': []} for s in range(case['n_src'])])
-        srcs = [dataflows.load((desc, [source(s) for s in range(case['n_src'])]))]
+        kw = {'limit_rows': case['k']} if case.get('early_stop') == 'limit_rows' else {}
+        srcs = [dataflows.load((desc, [source(s) for s in range(case['n_src'])]), **kw)]
     with quiet():
         Flow(*srcs, *steps, tap).process()
     return worst, deliveries[0], list(pulled)
 
 
+def check_early_stop(case, ctx):
+    prog = [s['k'] for s in case['steps']]
+    n = case['sizes'][0]
+    try:
+        worst, delivered, pulled = run(case, n, ctx)
+    except Exception as e:
+        why = gp.data_dependent_rejection(e)
+        if why:
+            return Info(rejected=True, classes=['rejected:' + why])
+        raise unexpected(e, '/'.join(prog))
+    k = min(case['k'], n)
+    if delivered != k:
+        raise Violation('early-stop:rows-delivered', {'delivered': delivered, 'expected': k, 'program': prog})
+    bound = k + BOUND
+    if pulled[0] > bound:
+        raise Violation('early-stop:source-read-far-beyond-the-last-row-asked-for',
+                        {'pulled': pulled[0], 'asked_for': k, 'bound': bound, 'how': case['early_stop'], 'program': prog})
+    return Info(nontrivial=True, classes=['early-stop:' + case['early_stop'], 'source:' + case['source_form']],
+                extra={'rows_streamed': pulled[0]})
+
+
 def check(case, ctx):
+    if case.get('early_stop'):
+        return check_early_stop(case, ctx)
     prog = [s['k'] for s in case['steps']]
     classes = ['source:' + case['source_form'], 'sources=%d' % case['n_src']] + sorted({'k:' + k for k in prog})
     results = []
